@@ -13,6 +13,7 @@ import (
 	"github.com/tetratelabs/wazero/internal/platform"
 	internalsock "github.com/tetratelabs/wazero/internal/sock"
 	internalsys "github.com/tetratelabs/wazero/internal/sys"
+	"github.com/tetratelabs/wazero/internal/verifhook"
 	"github.com/tetratelabs/wazero/internal/wasm"
 	binaryformat "github.com/tetratelabs/wazero/internal/wasm/binary"
 	"github.com/tetratelabs/wazero/sys"
@@ -315,6 +316,7 @@ func (r *runtime) InstantiateModule(
 
 	code := compiled.(*compiledModule)
 	config := mConfig.(*moduleConfig)
+	verifhook.Point("runtime.instantiate.after-closed-check")
 
 	// Only add guest module configuration to guests.
 	if !code.module.IsHostModule {
@@ -345,6 +347,7 @@ func (r *runtime) InstantiateModule(
 		return nil, err
 	}
 
+	verifhook.Point("runtime.instantiate.after-store")
 	if closeNotifier, ok := ctx.Value(expctxkeys.CloseNotifierKey{}).(experimentalapi.CloseNotifier); ok {
 		mod.(*wasm.ModuleInstance).CloseNotifier = closeNotifier
 	}
@@ -390,7 +393,9 @@ func (r *runtime) CloseWithExitCode(ctx context.Context, exitCode uint32) error 
 	if !r.closed.CompareAndSwap(0, closed) {
 		return nil
 	}
+	verifhook.Point("runtime.close.after-cas")
 	err := r.store.CloseWithExitCode(ctx, exitCode)
+	verifhook.Point("runtime.close.after-store")
 	if r.cache == nil {
 		// Close the engine if the cache is not configured, which means that this engine is scoped in this runtime.
 		if errCloseEngine := r.store.Engine.Close(); errCloseEngine != nil {
